@@ -74,8 +74,15 @@ def load_metadata(username="master"):
                 'description': data['description']
             }
 
-    # Immediately check for topological order.
-    check_topological_sort()
+    # Immediately check for topological order (of this user's files). A
+    # failed check must be reported on every attempt, so do not keep the
+    # metadata in that case.
+    try:
+        check_topological_sort(username)
+    except Exception:
+        del theory_cache[username]
+        del item_index[username]
+        raise
 
 def check_topological_sort(username="master"):
     """For the given user, check the import relations have no cycles."""
